@@ -109,6 +109,36 @@ def o1_update(ctx, role, lvl, n, frames=1, tr=None, first=None, relay=False, ful
     ctx.reached()
 
 
+def o1_after_reassembly(ctx, role, lvl, same_call):
+    """three frames: a complete two-fragment message for this node (FIRST, LAST - reassembled and queued), then ONE ARBITRARY
+    frame (typically a stray or repeated fragment): update() returns normally, and the arbitrary frame is dropped if invalid"""
+    clock = fresh_env(ctx)
+    radio, node, addr = build_node(ctx, clock, role, lvl)
+    link, outcome = per_packet_link(ctx, radio)
+    if role == "master":
+        tab = sym_table(ctx, 2)
+        node.dhcp_dict = SymDict(tab) if ctx.symbolic else dict(tab)
+    f = sym_addr(ctx, "F", (lvl + 1) % 5)
+    ctx.assume(f != addr)
+    fid, t = ctx.int("id", 0, 0xFFFF), ctx.int("type", 0, 127)
+    for k, (ft, res) in enumerate(((148, 2), (150, t))):
+        radio.inject_rx(ctx.int("pipe%d" % k, 1, 5), [f & 0xFF, f >> 8, addr & 0xFF, addr >> 8, fid & 0xFF, fid >> 8, ft, res] + blist(ctx.bytes("frag%d" % k, 2)))
+    if not same_call:
+        node.update()
+    third = ctx.bytes("rx2", 9)
+    radio.inject_rx(ctx.int("pipe2", 0, 5), blist(third))
+    t0, sent0 = clock.now, len(radio.sent)
+    node.update()  # any exception escaping here is a violation candidate
+    ctx.check(clock.now - t0 <= 2_000_000_000, "update() finishes in bounded (virtual) time")
+    queued = queue_frames(node)
+    h = header_of(third)
+    if bool(s_or(s_not(NS.valid_or_multicast(h["to_node"])), s_not(NS.valid_or_multicast(h["from_node"])))):
+        ctx.check(len(queued) <= 1, "only the reassembled message is queued: the invalid frame is not")
+        for e in distinct_packets(radio, sent0):
+            ctx.check(s_not(bytes_eq(e["data"][:8], blist(third)[:8])) if len(e["data"]) >= 8 else True, "the invalid frame is not retransmitted")
+    ctx.reached()
+
+
 def o1_then_short(ctx, role, lvl, n2, same_call):
     """a well-formed frame is handled first (queued, forwarded or consumed), then a payload shorter than a header arrives - in the
     same update() pass or in a later one: it is dropped, i.e. nothing (in particular not the earlier frame again) is queued or
@@ -201,6 +231,10 @@ def jobs(tier):
                         continue  # above
                     out.append(Job("O1-update-two-frames", o1_update,
                                    dict(role=role, lvl=0 if role == "master" else 2, n=8, frames=2, first=first), cost=400, shards=8))
+    for role, lvl in ((("net", 2),) if tier == "quick" else (("net", 2), ("mesh", 1), ("master", 0), ("net", 0), ("mesh", 4))):
+        for same in (False, True):
+            out.append(Job("O1-update-arbitrary-frame-after-a-reassembled-message", o1_after_reassembly, dict(role=role, lvl=lvl, same_call=same),
+                           cost=200, shards=8))
     for role, lvl, n2 in ((("net", 2, 7), ("routing", 1, 1), ("master", 0, 5), ("mesh", 3, 0)) if tier == "quick" else
                           [(r, l, n2) for r, l in (("net", 2), ("routing", 1), ("master", 0), ("mesh", 3), ("net", 0)) for n2 in range(8)]):
         for same in (False, True):
